@@ -4,6 +4,7 @@ import Iec.Gen.Consts104
 import Iec.Lemmas.Srv104Vr
 import Iec.Lemmas.Cli104Vr
 import Iec.Lemmas.Cli104Vs
+import Iec.Lemmas.Cli104VsMix
 import Iec.Lemmas.Srv104Ns
 /-
 C03 — CS104 wire format and send/receive sequence numbering are exact.
@@ -23,7 +24,7 @@ the `% 32768`; stated over histories as `nth_iframe_ns`), `sendS_spec`, `u_frame
 pass: C05 `delivery` (same code path); on the wire over every history of the whole server: `ns_counts_up_on_the_wire` (`Lemmas/Srv104Ns.lean`); over message histories: `nr_is_accepted_count` / `vr_is_start_plus_accepted`
 (`Lemmas/Srv104Vr.lean`: V(R) changes only when an I-format APDU passes both sequence checks).  Client role (`Iec.Cli104`, tied by its own differential):
 `client_sendI_spec`, `client_sendS_spec`, `client_u_frames` - the same laws for cs104_connection.c; over histories
-`client_nr_is_accepted_count` (`Lemmas/Cli104Vr.lean`), `client_vs_is_sent_count`, `client_ns_counts_up_on_the_wire`
+`client_nr_is_accepted_count` (`Lemmas/Cli104Vr.lean`), `client_vs_is_sent_count`, `client_ns_counts_up_on_the_wire`, `client_ns_counts_up_interleaved` (`Lemmas/Cli104VsMix.lean`: sends interleaved with any received messages)
 (`Lemmas/Cli104Vs.lean`: every sequence of send calls, accepted or refused).
 -/
 namespace Iec.Props.C03
@@ -264,6 +265,24 @@ theorem client_ns_counts_up_on_the_wire (c : Cli) (as : List (List Nat)) (h0 : c
 
 /-- non-vacuity: k = 2, three calls on a running, writable connection: two accepted, the third refused (window full) -/
 example : sentCount ({ p := { k := 2, w := 8, t0 := 10, t1 := 15, t2 := 10, t3 := 20, asduHdr := 6 }, phase := 3, running := true } : Cli) [[100, 1, 3, 0, 1, 0, 1, 0, 0, 1], [100, 1, 3, 0, 1, 0, 2, 0, 0, 1], [100, 1, 3, 0, 1, 0, 3, 0, 0, 1]] = 2 := by
+  decide
+
+/-- **client, N(S) on the wire over every interleaving of send calls and received messages.** From V(S) = 0 on a socket
+that accepts writes, whatever the application sends and whatever arrives in between (acknowledgements that release the
+window, I-format APDUs, U-format requests the client answers on the same socket, malformed messages), the I-format APDUs
+the client has written carry N(S) = 0, 1, 2, ... modulo 32768 in the order they were written, one per accepted call
+(`Lemmas/Cli104VsMix.lean`: `checkMessage` keeps V(S) and writes only U-format confirmations). -/
+theorem client_ns_counts_up_interleaved (c : Cli) (ops : List MOp) (h0 : c.vs = 0) (hl : c.log = [])
+    (hw : CliWritable c) :
+    nsLog (mixRun c ops).log = (List.range (mixSent c ops)).map (fun j => j % 32768) := by
+  have := ns_on_the_wire_mix ops c (by rw [h0]; decide) hw
+  rw [this, hl, h0]
+  simp [nsLog]
+
+/-- non-vacuity: k = 2; two sends, a third refused, an S-format acknowledgement of both, then the third is accepted -/
+example : mixSent ({ p := { k := 2, w := 8, t0 := 10, t1 := 15, t2 := 10, t3 := 20, asduHdr := 6 }, phase := 3, running := true } : Cli)
+    [.send [100, 1, 3, 0, 1, 0, 1, 0, 0, 1], .send [100, 1, 3, 0, 1, 0, 2, 0, 0, 1], .send [100, 1, 3, 0, 1, 0, 3, 0, 0, 1],
+     .recv [0x68, 4, 1, 0, 4, 0], .send [100, 1, 3, 0, 1, 0, 3, 0, 0, 1]] = 3 := by
   decide
 
 end Client
